@@ -70,6 +70,63 @@ def generator_poly_logs(n):
     return tuple(log[c] for c in g[1:])
 
 
+def rs_ec(data, n_ec):
+    """Error correction codewords of `data` (ISO 7.5.2: remainder of data(x) * x^n divided by the generator of degree n)."""
+    exp, log = gf_tables()
+    g = [1]
+    for i in range(n_ec):
+        ng = [0] * (len(g) + 1)
+        for k, c in enumerate(g):
+            ng[k] ^= c
+            ng[k + 1] ^= gf_mul(c, exp[i])
+        g = ng
+    rem = list(data) + [0] * n_ec
+    for k in range(len(data)):
+        c = rem[k]
+        if c:
+            for j in range(1, len(g)):
+                rem[k + j] ^= gf_mul(g[j], c)
+    return rem[len(data):]
+
+
+def penalty(matrix):
+    """(N1, N2, N3, N4) of ISO 7.8.3.1 for a square 0/1 matrix."""
+    n = len(matrix)
+    rows = [list(r) for r in matrix]
+    cols = [[rows[i][j] for i in range(n)] for j in range(n)]
+    n1 = 0
+    for line in rows + cols:
+        run = 1
+        for k in range(1, n + 1):
+            if k < n and line[k] == line[k - 1]:
+                run += 1
+            else:
+                if run >= 5:
+                    n1 += 3 + (run - 5)
+                run = 1
+    n2 = 0
+    for i in range(n - 1):
+        for j in range(n - 1):
+            if rows[i][j] == rows[i][j + 1] == rows[i + 1][j] == rows[i + 1][j + 1]:
+                n2 += 3
+    pat = [1, 0, 1, 1, 1, 0, 1]
+    n3 = 0
+    for line in rows + cols:
+        for k in range(n - 6):
+            if line[k:k + 7] == pat:
+                before = line[max(k - 4, 0):k]
+                after = line[k + 7:k + 11]
+                # four light modules on either side; what lies beyond the symbol edge counts as light
+                ok_before = not any(before)
+                ok_after = not any(after)
+                if ok_before or ok_after:
+                    n3 += 40
+    dark = sum(map(sum, rows))
+    from fractions import Fraction
+    n4 = 10 * int(abs(Fraction(100 * dark, n * n) - 50) / 5)
+    return n1, n2, n3, n4
+
+
 # ---- geometry -----------------------------------------------------------------------------
 
 def alignment_centres(v):
